@@ -37,7 +37,7 @@ MECHANISMS = [
     ('TotalDepth.DAT.DAT_parser', '_numpy_dtype'), ('TotalDepth.common.LogPass', 'FrameArray.append'),
 ]
 REQUIRED_MONITORS = ['parse_well_formed', 'corruption_rejected', 'corruption_parsed_to_model', 'can_parse_file', 'import_as_user', 'example_file',
-                     'same_file_object', 'earlier_result_unchanged']
+                     'same_file_object', 'earlier_result_unchanged', 'very_long_log']
 TEXTS_PER_SHARD = {'quick': 70, 'thorough': 3000}
 MIN_NONTRIVIAL = {'quick': 5000, 'thorough': 200000}
 TIMEOUT_S = {'quick': 300, 'thorough': 3000}
@@ -247,6 +247,55 @@ def run_shard(ctx, prm):
     else:
         rec.mon('import_as_user', 0)
         rec.mon('example_file', 0)
+
+    # ---- one very long log (shard 1; thorough: shards 1, 5, 9, 13): more text than any read buffer (> 10 MiB), one frame per data line
+    if part % 4 == 1 and (ctx.tier != 'quick' or part == 1):
+        import datetime
+        nrows = rng.randrange(245000, 262000)
+        t0 = rng.randrange(10 ** 9, 15 * 10 ** 8)
+        names = ['DMEA', 'ROP', 'WOB'][:rng.randrange(1, 4)]
+        sep = rng.choice([' ', '\t', '  '])
+        head = ['UTIM  Unix time  sec', 'DATE  Date  ddmmyy', 'TIME  Time  hhmmss'] + ['%s  Channel %s  m' % (nm, nm) for nm in names]
+        head.append(sep.join(['UTIM', 'DATE', 'TIME'] + names))
+        epoch = datetime.datetime(1970, 1, 1)
+        rows, want = [], {}
+        picks = set(rng.sample(range(nrows), 300)) | {0, nrows - 1, nrows - 2}
+        for i in range(nrows):
+            dt = epoch + datetime.timedelta(seconds=t0 + i)
+            vals = ['%.3f' % (1000.0 + 0.01 * i + 7.0 * k) for k in range(len(names))]
+            rows.append(sep.join([str(t0 + i), dt.strftime('%d') + G.MONTHS[dt.month - 1] + dt.strftime('%y'), dt.strftime('%H-%M-%S')] + vals))
+            if i in picks:
+                want[i] = (dt, [float(v) for v in vals])
+        text = '\n'.join(head + rows) + '\n'
+        rec.mon('very_long_log')
+        rec.add('very_long_log_characters', len(text))
+        rec.case(('very-long', nrows, t0, len(names), sep), len(text) > 10 * 2 ** 20, classes=['very-long-log:%d-MiB' % (len(text) >> 20)])
+        how, fa = run(D.parse_file, text)
+        wit = {'rows': nrows, 'characters': len(text), 'head': '\n'.join(head), 'first_row': rows[0], 'last_row': rows[-1]}
+        if how != 'ok':
+            st.violation('parse_well_formed', 'parse-raised', 'a well-formed text of %d data lines (%d characters) raised %s: %s' % (nrows, len(text), type(fa).__name__, fa), wit, exc=fa)
+        else:
+            for ch in fa.channels:
+                if len(ch.array) != nrows:
+                    st.violation('parse_well_formed', 'frame-count', 'channel %s has %d frames for %d data lines (%d characters of text)' % (ch.ident, len(ch.array), nrows, len(text)),
+                                 dict(wit, channel=str(ch.ident), got=len(ch.array)))
+                    break
+            else:
+                by = {str(c.ident): c for c in fa.channels}
+                bad = None
+                for i, (dt, vals) in sorted(want.items()):
+                    if by['UTIM'].array[i][0] != dt:
+                        bad = ('UTIM', i, by['UTIM'].array[i][0], dt)
+                    for nm, v in zip(names, vals):
+                        g = by[nm].array[i][0]
+                        if type(g) not in (float, np.float64) or float(g) != v:
+                            bad = (nm, i, g, v)
+                    if bad:
+                        st.violation('parse_well_formed', 'value', 'very long log: channel %s row %d: %r, the text says %r' % bad, dict(wit, channel=bad[0], row=bad[1], got=repr(bad[2])))
+                        break
+        del rows, text
+    else:
+        rec.mon('very_long_log', 0)
 
     # ---- generated texts and their corruptions
     prev = None          # (frame array, expected columns, witness) of the previous well-formed parse
